@@ -60,6 +60,18 @@ CHECKS = {
         note="memories of 2-8 words, bytes from a 2-value alphabet, classic cycles only (burst cycles not yet); every "
              "chain ends in the repository's own SRAM; known finding: Cache power-up tags hit (listed)",
         ref="4 (C07)"),
+    "C08": dict(
+        technique="TLA+ contract (AxiLiteIcContract) model-checked by TLC (safety + liveness Served/ServedIfGaps under "
+                  "fairness) on the closed-loop product of nondeterministic AXI4-Lite masters/slaves with the "
+                  "transition graph of the real AXILiteArbiter/Decoder/InterconnectShared/Crossbar netlists",
+        text="all channel schedules of one direction (address before/with/after data, 1-2 outstanding, back-pressure on "
+             "every channel, slaves accepting address and data independently and delaying responses) for decoder 1x2(3), "
+             "arbiter 2(3)x1, shared and crossbar 2x2 (thorough 3x2/3x3); seven safety clauses are invariants, "
+             "service is a temporal property on the complete graph.",
+        note="write and read directions explored separately (the code keeps separate state per direction); tags instead of "
+             "data; known findings: data-before-address misrouted, request to another slave while outstanding "
+             "misrouted, arbiter starvation under back-to-back traffic (listed)",
+        ref="4 (C08)"),
     "C11": dict(
         technique="TLA+ contract (WbIcContract time-out clauses, ErrCounterGraph) model-checked by TLC on the closed-loop "
                   "product of masters and FAULTY slaves (silent forever / late / answering in the expiry cycle) with the "
@@ -119,7 +131,7 @@ CHECKS = {
              "Efinix Trion helpers and all speed grades.",
         note="sampling plus exhaustive one-output / fill-all-outputs sub-spaces, not the whole request space; float "
              "boundary cases classified indeterminate and counted; 12 known findings (listed)",
-        ref="4 (C20)", category="exploration", engine="tlc+api"),
+        ref="4 (C20)", engine="tlc+api"),
 }
 
 NOT_APPLICABLE = []
